@@ -27,6 +27,12 @@ CLAIMS = {
          "random multi-cuts and malformed/never-completed length fields on ws messages, ws continuation frames, HTTP chunks and chunks split over TCP writes; actual read sizes from the tr.read hook; "
          "TLC compares accepted packets, responses and host bytes with the uncut run (FramingTrace).", "DESIGN.md §4 C08",
          "TLC design check of framing; segmentations replayed on the real gateway; TLC trace validation"),
+ "C12": ("Oidc.tla session/state machine and Policy!Offered host choice model-checked; on the real binary (fake IdP) every selection mode x host list x host parameter class x session state x splitting x client address: "
+         "the file is parsed and its token decoded independently, claims judged by TLC (host by policy, user, ClientAddr, session access token), and the same file then drives a real tunnel from the same address.", "DESIGN.md §4 C12",
+         "TLC design check; enumerated downloads on the real binary; TLC trace validation"),
+ "C13": ("Oidc.tla (state issue/expiry, every IdP failure point, cookie tampering) model-checked; on the real binary with both session stores: every state class x login failure followed by /connect to observe authentication, "
+         "single-character substitutions / truncations / foreign-instance session cookies, identity restoration; TLC judges each scenario.", "DESIGN.md §4 C13",
+         "TLC design check; callback/cookie scenarios on the real binary; TLC trace validation"),
  "C14": ("Ntlm.tla (sessions, fresh challenges, proof of password, replay, garbage) model-checked for all histories of <=5 calls over 2 sessions; one script per edge of that state graph plus random histories "
          "executed against the real ntlm.NTLMAuth and through gRPC against the real rdpgw-auth, with genuine NTLMv2 client messages; TLC tracks the pending challenge per session and judges every call.", "DESIGN.md §4 C14",
          "TLC design check; state-graph edge cover replayed on the real verifier; TLC trace validation"),
